@@ -1,13 +1,14 @@
 #!/bin/bash
 # usage: tools/harmless_sweep.sh [ids...]  — every stored behaviour-preserving rewrite (harmless/<id>/patch.diff) against ALL twenty quick
 # checks, 5 rewrites at a time, each in its own scratch worktree and scratch area; one line per (rewrite, check); any rc != 0 is a false alarm
-cd /verif
+V=${VERIF_HOME:-/verif}; cd $V
 IDS=${@:-$(ls harmless)}
 one() {
+  V=${VERIF_HOME:-/verif}
   id=$1; W=/tmp/wharm_$id
   git -C /repo worktree remove --force $W >/dev/null 2>&1
   git -C /repo worktree add -q --detach $W HEAD || { echo "$id worktree-failed"; return; }
-  git -C $W apply /verif/harmless/$id/patch.diff || { echo "$id patch-failed"; git -C /repo worktree remove --force $W; return; }
+  git -C $W apply $V/harmless/$id/patch.diff || { echo "$id patch-failed"; git -C /repo worktree remove --force $W; return; }
   tools/sweep_worktree.sh $W harm_$id
   git -C /repo worktree remove --force $W; rm -rf /tmp/vbuild_harm_$id
 }
